@@ -1802,6 +1802,96 @@ def check_image_destination(ctx, tu, f):
 
 
 
+def check_errno_use(ctx, tu, f):
+    """R-C20-5 (state): errno is thread-wide state that successful library calls leave alone.  A test of errno alone -- not
+    subordinate to a call of this function that reported failure -- reads whatever an earlier, unrelated call left there"""
+    R = 'R-C20-5'
+    inst = 'writeImage<%s> errno' % ', '.join(f.get('targs') or [])
+    keyb = '%s|%s|writeImage|' % (R, tu.fn_file(f))
+
+    def is_errno(x):
+        return (x.get('kind') == 'CallExpr' and tu.sd(x).get('q') in ('__errno_location', '__error', '_errno')) or \
+            (x.get('kind') == 'DeclRefExpr' and x.get('referencedDecl', {}).get('name') == 'errno')
+
+    def reads_errno(e):
+        return any(is_errno(x) for x in tu.walk(e))
+
+    def other_inputs(e):
+        """calls / variables other than errno that the expression looks at"""
+        out = []
+        for x in tu.walk(e):
+            if x.get('kind') in ('CallExpr', 'CXXMemberCallExpr', 'CXXOperatorCallExpr') and not is_errno(x):
+                out.append(x)
+            if x.get('kind') == 'DeclRefExpr' and x.get('referencedDecl', {}).get('kind') in ('VarDecl', 'ParmVarDecl') and \
+                    x.get('referencedDecl', {}).get('name') != 'errno':
+                out.append(x)
+        return out
+
+    def disjuncts(e):
+        x = tu.strip(e)
+        if x is not None and x.get('kind') == 'BinaryOperator' and x.get('opcode') == '||':
+            return disjuncts(tu.kids(x)[0]) + disjuncts(tu.kids(x)[1])
+        return [x] if x is not None else []
+
+    fns, seen = [f], set()
+    found = False
+    while fns:
+        fn = fns.pop()
+        if fn['id'] in seen:
+            continue
+        seen.add(fn['id'])
+        body = tu.body(fn)
+        clears = [x for x in tu.walk(body) if x.get('kind') == 'BinaryOperator' and x.get('opcode') == '=' and
+                  reads_errno(tu.kids(x)[0])]
+        for x in tu.walk(body):
+            if x.get('kind') in ('CallExpr',):
+                cf = tu.callee_fn(x)
+                if cf is not None and cf['q'].startswith(UTIL) and tu.body(cf) is not None and len(seen) < 20:
+                    fns.append(cf)
+            if x.get('kind') != 'IfStmt':
+                continue
+            ks = [c for c in x.get('inner', ()) if isinstance(c, dict) and c.get('kind')]
+            if len(ks) < 2 or not reads_errno(ks[0]):
+                continue
+            found = True
+            alone = [d for d in disjuncts(ks[0]) if reads_errno(d) and not other_inputs(d)]
+            if not alone:
+                continue          # errno qualifies a failure that something else reported
+            # a failure context: nested in the branch of a test that looks at the result of a call
+            ctx_fail = False
+            p_ = tu.par(x)
+            hops = 0
+            while p_ is not None and hops < 60 and p_.get('id') != body.get('id'):
+                hops += 1
+                if p_.get('kind') == 'IfStmt':
+                    pk = [c for c in p_.get('inner', ()) if isinstance(c, dict) and c.get('kind')]
+                    if pk and other_inputs(pk[0]):
+                        ctx_fail = True
+                p_ = tu.par(p_)
+            if ctx_fail:
+                continue
+            acts = [y for br in ks[1:] for y in tu.walk(br) if y.get('kind') in ('CXXThrowExpr', 'ReturnStmt', 'BreakStmt', 'ContinueStmt',
+                                                                                'GotoStmt') or
+                    (y.get('kind') == 'CallExpr' and tu.sd(y).get('q') in ('remove', 'std::remove', 'unlink', 'abort', 'exit', 'std::exit'))]
+            if not acts:
+                continue
+            if clears:
+                ctx.undecided(R, inst, '`%s` decides on errno alone; errno is assigned earlier in the function, whether every call '
+                              'in between leaves it untouched on success is not decided' % tu.show(ks[0]), tu.loc(x))
+                return
+            ctx.violation(R, inst, '`%s` takes `%s` as a failure of this write although errno is never cleared here and library calls '
+                          'that succeed do not reset it: a value left behind by any earlier failed call on this thread (a missing '
+                          'config file, an interrupted sleep) makes the writer %s for an image it has written correctly -- the result '
+                          'depends on what ran before, not on the arguments'
+                          % (tu.show(ks[0]), tu.show(alone[0]),
+                             'throw and delete the file' if any(y.get('kind') == 'CallExpr' for y in acts) else 'give up'),
+                          tu.loc(x), key=keyb + 'stale-errno')
+            return
+    if found:
+        ctx.ok(R, inst, 'errno is only consulted to qualify a failure that a call reported', tu.fn_loc(f))
+
+
+
 def check_images(ctx, tu):
     ctx.describe('R-C20-1', 'per writeImage instantiation: loops y<sizeY, x<sizeX, c<N; source index = row(y)*sizeX pixels + '
                  'PIXEL_COMP*x + channel(c) with 0 <= channel(c) < PIXEL_COMP; sizeof(PIXEL_T) == PIXEL_COMP*sizeof(COMP_T); '
@@ -1819,6 +1909,7 @@ def check_images(ctx, tu):
         check_write_image(ctx, tu, f)
         check_header_use(ctx, tu, f, headers_of.get(f['id']))
         check_image_destination(ctx, tu, f)
+        check_errno_use(ctx, tu, f)
     ctx.floor('R-C20-1', n, 6, 'writeImage instantiations reachable from the six format wrappers')
     check_purity(ctx, tu)
 
@@ -3240,6 +3331,113 @@ def check_cached_names(ctx, tu):
         ctx.ok(R, inst, '%d returned pointer(s), all into address-stable string storage' % len(verdicts), tu.fn_loc(f))
 
 
+EVENT_PTR_RX = re.compile(r'(const\s+)?(rkcommon::tracing::)?TraceEvent(\s+const)?\s*\*')
+EVENT_VEC_RX = re.compile(r'^(const\s+)?std::vector<rkcommon::tracing::TraceEvent\b')
+
+
+def check_event_addresses(ctx, tu):
+    """R-C20-13: an address of a recorded event that a ThreadEventList keeps from one recording call to the next must stay
+    valid: the chunk it points into never moves its elements, i.e. it is reserved to the full chunk size when it is created
+    and never grows beyond that"""
+    R = 'R-C20-13'
+    ctx.describe(R, 'a member of ThreadEventList that holds pointers to recorded events only ever points into chunks whose '
+                 'storage does not move: every chunk is reserved to the chunk size on creation (or no such pointers are kept)')
+    rec = tu.records_by_type.get(TEL) or ([r for r in tu.records.values() if r.get('q') == TEL] or [None])[0]
+    if rec is None:
+        ctx.broken('%s: record ThreadEventList not found' % R)
+        return
+    inst = 'ThreadEventList event addresses'
+    holders = [fd for fd in rec['fields'] if EVENT_PTR_RX.search(fd.get('ct', ''))]
+    fns = [f for f in tu.functions.values() if f.get('rec') == TEL and not f['dep'] and tu.body(f) is not None]
+    file = tu.fn_file(fns[0]) if fns else '?'
+    keyb = '%s|%s|ThreadEventList|' % (R, file)
+    if not holders:
+        ctx.ok(R, inst, 'no member of ThreadEventList holds pointers to recorded events', file)
+        return
+
+    def elem_addr(e):
+        """does e take the address of an element of a std::vector<TraceEvent>"""
+        for x in tu.walk(e):
+            if x.get('kind') == 'UnaryOperator' and x.get('opcode') == '&':
+                t = tu.strip(tu.kids(x)[0], casts=True)
+                if t is not None and t.get('kind') in ('CXXMemberCallExpr', 'CXXOperatorCallExpr'):
+                    sd, obj, args = tu.call_parts(t)
+                    nm = sd.get('q', '').split('::')[-1]
+                    if nm in ('back', 'front', 'operator[]', 'at', 'operator*') and obj is not None and \
+                            EVENT_VEC_RX.search(tu.sd(tu.strip(obj, casts=True)).get('ct', '').replace('&', '').strip()):
+                        return x
+            if x.get('kind') == 'CXXMemberCallExpr' and tu.sd(x).get('q', '').split('::')[-1] == 'data' and \
+                    tu.call_parts(x)[1] is not None and \
+                    EVENT_VEC_RX.search(tu.sd(tu.strip(tu.call_parts(x)[1], casts=True)).get('ct', '').replace('&', '').strip()):
+                return x
+        return None
+
+    names = {fd['name'] for fd in holders}
+    stores = []
+    for f in fns:
+        for x in tu.walk(tu.body(f)):
+            k = x.get('kind')
+            if k == 'CXXMemberCallExpr':
+                sd, obj, args = tu.call_parts(x)
+                if obj is not None and tu.member_of_this(obj) in names and \
+                        sd.get('q', '').split('::')[-1] in ('push_back', 'emplace_back', 'push', 'emplace', 'insert', 'push_front'):
+                    for a in args:
+                        if elem_addr(a) is not None:
+                            stores.append((f, x, tu.member_of_this(obj)))
+            if k in ('BinaryOperator', 'CXXOperatorCallExpr') and (x.get('opcode') == '=' or
+                                                                   tu.sd(x).get('q', '').split('::')[-1] == 'operator='):
+                ks = tu.kids(x) if k == 'BinaryOperator' else tu.kids(x)[1:]
+                if len(ks) == 2 and any(y.get('kind') == 'MemberExpr' and tu.member_of_this(y) in names for y in tu.walk(ks[0])) \
+                        and elem_addr(ks[1]) is not None:
+                    nm_ = [tu.member_of_this(y) for y in tu.walk(ks[0]) if y.get('kind') == 'MemberExpr' and tu.member_of_this(y) in names]
+                    stores.append((f, x, nm_[0]))
+    if not stores:
+        ctx.undecided(R, inst, 'member `%s` can hold pointers to events but no store of an element address into it is recognised'
+                      % sorted(names)[0], file)
+        return
+    # do the chunks keep their elements in place?
+    reserves, limits = [], []
+    for f in fns:
+        for x in tu.walk(tu.body(f)):
+            if x.get('kind') == 'CXXMemberCallExpr' and tu.call_parts(x)[1] is not None and \
+                    EVENT_VEC_RX.search(tu.sd(tu.strip(tu.call_parts(x)[1], casts=True)).get('ct', '').replace('&', '').strip()):
+                nm = tu.sd(x).get('q', '').split('::')[-1]
+                if nm == 'reserve' and tu.call_parts(x)[2]:
+                    v = Evaluator(tu).ev(tu.call_parts(x)[2][0])
+                    reserves.append((x, v.const_value() if v is not None else None))
+            if x.get('kind') == 'BinaryOperator' and x.get('opcode') in ('>=', '==', '<', '>'):
+                l, r = tu.kids(x)
+                ls = tu.strip(l, casts=True)
+                if ls is not None and ls.get('kind') == 'CXXMemberCallExpr' and tu.sd(ls).get('q', '').split('::')[-1] == 'size' and \
+                        tu.call_parts(ls)[1] is not None and \
+                        EVENT_VEC_RX.search(tu.sd(tu.strip(tu.call_parts(ls)[1], casts=True)).get('ct', '').replace('&', '').strip()):
+                    v = Evaluator(tu).ev(r)
+                    if v is not None and v.const_value() is not None:
+                        limits.append((x, v.const_value(), x.get('opcode')))
+    f0, x0, nm0 = stores[0]
+    if not reserves:
+        ctx.violation(R, inst, '`%s` in %s keeps the address of an event inside the current chunk in the member `%s`, but the chunks '
+                      'are ordinary growing vectors (no reserve of the chunk size when a chunk is created): the next push_back '
+                      'that makes the chunk grow moves every event, the kept pointers dangle, and the begin event they are used '
+                      'for later is read from freed memory (wrong or garbage names in the log, or a crash)'
+                      % (tu.show(x0), short_q(f0['q']), nm0), tu.loc(x0), key=keyb + 'event-pointer-into-growing-chunk')
+        return
+    ks_ = [k_ for x_, k_ in reserves]
+    ge = [v_ for x_, v_, op_ in limits if op_ in ('>=', '==')]
+    if None in ks_ or not ge:
+        ctx.undecided(R, inst, 'pointers to events are kept in `%s`; the reserved chunk capacity or the fullness test is not a '
+                      'constant that can be compared' % nm0, tu.loc(x0))
+        return
+    if min(ks_) < max(ge):
+        ctx.violation(R, inst, '`%s` keeps event addresses in `%s`, but a chunk is reserved for %d events and only replaced when it '
+                      'holds %d: it grows beyond its reservation and moves the events the kept pointers refer to'
+                      % (tu.show(x0), nm0, min(ks_), max(ge)), tu.loc(x0), key=keyb + 'event-pointer-into-growing-chunk')
+        return
+    ctx.ok(R, inst, 'event addresses kept in `%s` point into chunks reserved for %d events and replaced at %d' % (nm0, min(ks_), max(ge)),
+           tu.loc(x0))
+
+
+
 def check_utilization_divisor(ctx, tu):
     """R-C20-8: the CPU utilisation printed for an end event is elapsed_cpu / elapsed_wall; the divisor must not be a
     time difference truncated to whole ticks of a coarser unit (0 for any interval shorter than one tick -> inf / nan in
@@ -3847,6 +4045,7 @@ def loop_kind(tu, range_expr, derived=None):
 
 
 # the container of still-open begin events: a stack / vector / deque / list of pointers to TraceEvent
+BEGIN_ARRAY_RX = re.compile(r'TraceEvent\s*(const\s*)?\*\s*(const\s*)?\[\d+\]')
 BEGIN_STACK_RX = re.compile(r'std::(stack|vector|deque|list)<\s*(const\s+)?(rkcommon::tracing::)?TraceEvent(\s+const)?\s*\*')
 
 
@@ -3856,6 +4055,7 @@ def check_iteration(ctx, tu, f, R):
     inst = 'TraceRecorder::saveLog iteration'
     keyb = '%s|%s|TraceRecorder::saveLog|' % (R, tu.fn_file(f))
     ev_loops, stacks, other_loops, notes = [], [], [], []
+    arrays = []
 
     def refs(e, env, depth=0):
         """decl ids an expression depends on, looking through helper parameters and local aliases"""
@@ -3903,6 +4103,11 @@ def check_iteration(ctx, tu, f, R):
         if k == 'VarDecl' and (BEGIN_STACK_RX.search(n.get('type', {}).get('qualType', '')) or
                                BEGIN_STACK_RX.search(n.get('type', {}).get('desugaredQualType', ''))):
             stacks.append((n, list(lctx), fn))
+        elif k == 'VarDecl' and BEGIN_ARRAY_RX.search(n.get('type', {}).get('desugaredQualType', '') or
+                                                      n.get('type', {}).get('qualType', '')):
+            # a fixed array of event pointers used as a stack, with an integer counting the open begin events
+            stacks.append((n, list(lctx), fn))
+            arrays.append((n, fn))
         elif k == 'VarDecl':
             # an object of a tracing class that keeps the begin stack as a member: the stack lives as long as the object
             vt_ = n.get('type', {}).get('qualType', '')
@@ -3930,6 +4135,49 @@ def check_iteration(ctx, tu, f, R):
     transfers = registry_transfers(tu, f)
     walk(tu.body(f), [], f, {}, 0)
     good = True
+    # ---- a begin stack kept in a fixed array: its counter, and the capacity test in front of every push
+    counters = set()
+    for avd, afn in arrays:
+        m_ = re.search(r'\[(\d+)\]', avd.get('type', {}).get('desugaredQualType', '') or avd.get('type', {}).get('qualType', ''))
+        cap = int(m_.group(1)) if m_ else None
+        for x in tu.walk(tu.body(afn)):
+            if x.get('kind') != 'ArraySubscriptExpr' or tu.ref_decl(tu.kids(x)[0]) != avd['id']:
+                continue
+            idx_vars = {y.get('referencedDecl', {}).get('id') for y in tu.walk(tu.kids(x)[1]) if y.get('kind') == 'DeclRefExpr'
+                        and y.get('referencedDecl', {}).get('kind') == 'VarDecl'}
+            counters |= idx_vars
+            par = tu.par(x)
+            hops = 0
+            while par is not None and hops < 4 and par.get('kind') in ('ParenExpr', 'ImplicitCastExpr'):
+                par = tu.par(par)
+                hops += 1
+            is_store = par is not None and par.get('kind') == 'BinaryOperator' and par.get('opcode') == '=' and \
+                tu.strip(tu.kids(par)[0]) is not None and tu.strip(tu.kids(par)[0]).get('id') == x.get('id')
+            if not is_store:
+                continue
+            # the push: is it under a test that relates the counter to a bound?
+            guarded = False
+            p_ = tu.par(par)
+            hops = 0
+            while p_ is not None and hops < 80:
+                hops += 1
+                if p_.get('kind') == 'IfStmt':
+                    pk = [c for c in p_.get('inner', ()) if isinstance(c, dict) and c.get('kind')]
+                    for y in (tu.walk(pk[0]) if pk else ()):
+                        if y.get('kind') == 'BinaryOperator' and y.get('opcode') in ('<', '<=', '>', '>=', '!=', '==') and \
+                                any(tu.ref_decl(z) in idx_vars for z in tu.kids(y)) and \
+                                not any(tu.sd(tu.strip(z)).get('cv') == '0' for z in tu.kids(y)):
+                            guarded = True
+                p_ = tu.par(p_)
+            if guarded:
+                notes.append('push into the fixed begin array under a capacity test')
+                continue
+            ctx.violation(R, inst, '`%s` stores an open begin event into the fixed array `%s` of %s entries without testing the count: '
+                          'the nesting depth of begin/end events is not bounded by anything, so on a thread with more than %s open '
+                          'begin events the store lands beyond the array (stack corruption / crash while saving); a container that '
+                          'grows, or a capacity test in front of the store, is required'
+                          % (tu.show(par), avd.get('name'), cap, cap), tu.loc(par), key=keyb + 'begin-stack-fixed-capacity')
+            good = False
     if not ev_loops:
         ctx.undecided(R, inst, 'no range-for over the events of a chunk was found in saveLog or the helpers it calls', tu.fn_loc(f))
         return
@@ -4141,6 +4389,10 @@ def check_iteration(ctx, tu, f, R):
                             tu.call_parts(x)[1] is not None and \
                             BEGIN_STACK_RX.search(tu.sd(tu.strip(tu.call_parts(x)[1])).get('ct', '')):
                         stack_empty = True
+                    # array + counter form of the begin stack: `count == 0`
+                    if x.get('kind') == 'BinaryOperator' and x.get('opcode') in ('==', '<=') and counters and \
+                            tu.ref_decl(tu.kids(x)[0]) in counters and tu.sd(tu.strip(tu.kids(x)[1])).get('cv') == '0':
+                        stack_empty = True
             if stack_empty:
                 continue          # the documented error exit: an end event without an open begin event
             text = ' && '.join(('%s' if pol else '!(%s)' if pol is False else 'on `%s`') % tu.show(c)
@@ -4249,6 +4501,7 @@ def run(ctx):
     check_recording(ctx, tt)
     check_value_fidelity(ctx, tt)
     check_cached_names(ctx, tt)
+    check_event_addresses(ctx, tt)
     check_utilization_divisor(ctx, tt)
     check_lock_reentry(ctx, tt)
     check_log_file_open(ctx, tt)
@@ -4261,6 +4514,7 @@ def run(ctx):
         check_recording(ctx, tt2)
         check_value_fidelity(ctx, tt2)
         check_cached_names(ctx, tt2)
+        check_event_addresses(ctx, tt2)
         check_utilization_divisor(ctx, tt2)
         check_lock_reentry(ctx, tt2)
         check_log_file_open(ctx, tt2)
